@@ -10,11 +10,11 @@ EXHAUSTIVE = True
 CHUNK = 1
 CASE_TIMEOUT = 900
 RULE = ("deviation-bounded exploration around base programs: 11 definition sets (two of them erroneous: undefined name, division by zero) (chain, fan-in, fan-out, diamonds, label-valued, "
-        "left-multiplied, mixed) x uses in 17 consumer positions (.word .byte immediate index absolute relative branch .blkb .repeat "
+        "left-multiplied, mixed) x uses in 20 consumer positions (multi-chunk .rad50 and .ascii with what stands behind them; .word .byte immediate index absolute relative branch .blkb .repeat "
         ".align '. =' skip <n> %n .dword link-expression) x 2-3 link regimes; for each base program every permutation of its "
         "definitions, every single definition moved to every top-level position (deviation 1) and, in thorough, every pair moved "
         "(deviation 2); alias/additive chains of depth 1..300 and non-linear chains of depth 1..30 in forward, backward and use-first "
-        "order; 4 definition sets x 17 uses again while another name space (a file linked before, linked after, or a header included on "
+        "order; 4 definition sets x 20 uses again while another name space (a file linked before, linked after, or a header included on "
         "top) exports the same names with other values (the file's own definitions take precedence wherever they stand); every top-level "
         "constant definition of the 21 practice programs moved to the top and to the bottom. All variants of a "
         "base program must have the same status, base, bytes and error kinds, and a trailing '.word a,b,c,d' is anchored to values "
@@ -61,6 +61,8 @@ USES = [
     ("rel", "clr d"), ("branch", "br .+<d&6>+2"), ("blkb", ".blkb d & 7"), ("repeat", ".repeat d & 3 { nop }"),
     ("align", ".align <d & 3> + 1"), ("skip", ". = .+<d & 7>"), ("angle", ".ascii <d & 177>"), ("regnum", "mov %<d & 7>, r0"),
     ("dword", ".dword d * 2"), ("two", "mov #c, b(r2)"), ("bare", "d"), ("bare-list", "d, c"),
+    # a statement of several chunks whose size is announced before its codes are known, and what stands behind it
+    ("rad50-chunks", ".rad50 /AB/<d & 37>\n.word ."), ("rad50-chunks3", ".rad50 /A/<d & 7>/B/<c & 7>\n.word ."), ("ascii-chunks", ".ascii /ab/<d & 177>/c/<c & 177>\n.byte . & 177"),
 ]
 REGIMES = ["first", "none", "last"]
 
